@@ -7,6 +7,7 @@
 (*   clone g to | fix g n r | reset g | zeros g n (guarded hook)           *)
 (***************************************************************************)
 EXTENDS GenReal, TraceBase
+S == INSTANCE Stream WITH BUF <- 32768
 VARIABLES l, j, gens
 vars == <<l, j, gens>>
 Ev(k) == l <= NRec /\ Rec[l].ev = k
@@ -59,7 +60,25 @@ EvSame == /\ Ev("same")
           /\ Expect(gens[E.g] = gens[E.h], <<l, "same-spec", "ZerosState(n) differs from n zero steps">>)
           /\ Expect(E.r = TRUE, <<l, "same-hook", "hook state differs from really feeding zeros">>)
           /\ UNCHANGED gens /\ Done
-Next == EvEasy \/ EvRealZeros \/ EvSame \/ EvNew \/ EvZeros \/ EvClone \/ EvReset \/ EvUpd \/ EvFix \/ EvFin
+(* C18: hash_stream over a scripted reader.  E.g holds exactly the bytes the reader delivered
+   before it reported end of file (used only when no error is expected); E.n = payload length *)
+EvStream == /\ Ev("stream")
+            /\ LET w == S!Walk(E.script, 1, 0, E.n) IN
+               Expect(/\ E.reads = w.reads /\ E.reads_after_error = 0
+                      /\ IF w.io THEN E.r.e = "io" /\ E.r.kind = w.kind /\ E.r.id = w.id
+                         ELSE /\ gens[E.g].ref.size = G!SzOf(w.pos)
+                              /\ Same(J(G!RFin(gens[E.g].ref, TRUE, FALSE)), E.r),
+                      <<l, "stream", w>>)
+            /\ UNCHANGED gens /\ Done
+(* C18: hash_file.  what: regular | missing | dir | special (metadata size may differ from
+   what is delivered: FIFO, procfs).  E.g holds the delivered bytes when a hash is expected *)
+EvFile == /\ Ev("file")
+          /\ Expect(CASE E.what \in {"missing", "dir"} -> E.r.e = "io" /\ (E.what = "missing" => E.r.kind = "NotFound")
+                      [] E.meta # E.delivered -> E.r.e = "Mismatch"
+                      [] OTHER -> gens[E.g].ref.size = E.delivered /\ Same(J(G!RFin(gens[E.g].ref, TRUE, FALSE)), E.r),
+                    <<l, "file", E.what>>)
+          /\ UNCHANGED gens /\ Done
+Next == EvStream \/ EvFile \/ EvEasy \/ EvRealZeros \/ EvSame \/ EvNew \/ EvZeros \/ EvClone \/ EvReset \/ EvUpd \/ EvFix \/ EvFin
 Spec == Init /\ [][Next]_vars
 Progress == Mark(l)
 =============================================================================
